@@ -285,7 +285,7 @@ func runCrash(p *Plan, tree *refTree, res *simcore.Result) {
 			lose := 0
 			if d > 0 {
 				mode = simdisk.PowerLoss
-				if uns := simdisk.UnsyncedUnits(h.kvlog, c); uns > 0 {
+				if uns := simdisk.UnsyncedUnits(h.kvlog, c); uns > 0 && p.KVLoss {
 					switch dr.Intn(4) {
 					case 0:
 						lose = uns
@@ -378,7 +378,7 @@ func (rb *rebooter) run(model *simdisk.FSModel, img map[string][]byte, mem *memo
 	simos.ResetLocks()
 	kv := simdisk.FromMem(mem, nil)
 	w := &world{knobs: rb.p.Knobs, tree: rb.tree, root: nroot, clock: kv.Clock, kv: kv, engine: rb.engine, res: rb.res, bubble: true,
-		live: map[logKey]bool{}, universe: rb.tree.universe(), trace: simcore.NewHash(), stateFP: simcore.NewHash(), headNode: -1, finalNode: -2, dupLogBlock: -2}
+		live: map[logKey]bool{}, universe: rb.tree.universe(), trace: simcore.NewHash(), stateFP: simcore.NewHash(), headNode: -1, finalNode: -2, dupLogBlock: -2, crashed: true}
 	defer func() {
 		// best-effort tear-down; a wedged chain after a violation must not hide it
 		func() {
@@ -395,6 +395,13 @@ func (rb *rebooter) run(model *simdisk.FSModel, img map[string][]byte, mem *memo
 		if err != nil {
 			v := viol("reboot-open-failed", "rawdb.Open on the crash image failed: %v", err)
 			v.Key = "reboot-open-failed:" + rb.modeKey() + ":" + classOf(err.Error())
+			if k := rb.h.opAt(rb.cut); strings.Contains(err.Error(), "already extracted") && k >= 0 && k < len(rb.h.ops) &&
+				(rb.h.ops[k].kind == "insert" || rb.h.ops[k].kind == "setcanon") && !rb.tree.isAncestorOrSelf(rb.headBefore(k), rb.h.ops[k].headAfter) {
+				// same window as reboot-canon-gap:reorg-deletes-old-index-before-moving-head, with the
+				// fork point at genesis: canonical hash #1 is gone while the head markers are not
+				// genesis, and rawdb.Open takes that for a key-value store whose freezer is missing
+				v.Key = "reboot-open-failed:reorg-deleted-canonical-hash-1-before-moving-head"
+			}
 			return v
 		}
 		w.db = db
@@ -404,6 +411,11 @@ func (rb *rebooter) run(model *simdisk.FSModel, img map[string][]byte, mem *memo
 		if err != nil {
 			v := viol("reboot-chain-failed", "NewBlockChain on the crash image failed: %v", err)
 			v.Key = "reboot-chain-failed:" + rb.modeKey() + ":" + classOf(err.Error())
+			if strings.Contains(err.Error(), "is disk layer") && rawdb.ReadCanonicalHash(db, 0) == (common.Hash{}) {
+				// the genesis state reached the disk, the genesis block did not: SetupGenesisBlock
+				// commits the genesis again and pathdb refuses to commit its own disk layer
+				v.Key = "reboot-chain-failed:genesis-state-on-disk-but-genesis-block-missing"
+			}
 			return v
 		}
 		w.bc = bc
@@ -417,6 +429,10 @@ func (rb *rebooter) run(model *simdisk.FSModel, img map[string][]byte, mem *memo
 		// freezer-level causes that are already recorded under C24 get one key each,
 		// wherever they surface (rawdb.Open error, pathdb log.Crit, panic in Freezer.repair)
 		switch {
+		case v.Oracle == "reboot-panic" && strings.Contains(v.Msg, "nil pointer dereference") && strings.Contains(v.Msg, "ResetWithGenesisBlock") && strings.Contains(v.Msg, "setHeadBeyondRoot.func1"):
+			// loadLastState finds the head block missing and calls Reset -> SetHead(0); the
+			// rewind callback dereferences bc.CurrentBlock(), which is still nil at that point
+			v.Key = "reboot-panic:reset-on-missing-head-block-dereferences-nil-current-block"
 		case strings.Contains(v.Msg, "failed to decode metadata"):
 			v.Key = "reboot-failed:" + rb.modeKey() + ":torn-freezer-metadata"
 		case strings.Contains(v.Msg, "non-prunable freezer table"):
@@ -439,12 +455,44 @@ func (rb *rebooter) judge(w *world, bound int64, boundWhy string) *simcore.Viola
 		return v
 	}
 	// 1-4: structure and head state
+	opk := rb.h.opAt(rb.cut)
 	cv, v := w.canon()
 	if v != nil {
-		return pre(v)
+		v = pre(v)
+		if v.Oracle == "reboot-canon-gap" && opk >= 0 && opk < len(rb.h.ops) && (rb.h.ops[opk].kind == "setcanon" || rb.h.ops[opk].kind == "insert") {
+			before := -1
+			if opk > 0 {
+				before = rb.h.ops[opk-1].headAfter
+			}
+			if !rb.tree.isAncestorOrSelf(before, rb.h.ops[opk].headAfter) {
+				// a reorganisation whose first new block sits directly on the old canonical chain:
+				// reorg() deletes the old canonical hashes above the fork point in one batch, the
+				// head markers move in a later one (writeHeadBlock)
+				v.Key = "reboot-canon-gap:reorg-deletes-old-index-before-moving-head"
+			}
+		}
+		if tail, _ := w.db.Tail(rawdb.ChainFreezerBlockDataGroup); tail > 0 && strings.HasPrefix(v.Oracle, "reboot-canon-") {
+			// chain freezer tables that were not yet covered by the interrupted SyncAncient lose
+			// their items at repair and are then taken for pruned history (tail moved to the head)
+			v.Key = "reboot-canon-block-missing:partially-synced-freezer-tables-taken-for-pruned-history"
+			v.Msg += fmt.Sprintf(" (freezer block-data tail is %d although history pruning is off)", tail)
+		}
+		return v
 	}
 	if v := w.checkState(); v != nil {
-		return pre(v)
+		v = pre(v)
+		if v.Oracle == "reboot-head-state-missing" && cv.head == 0 && opk >= 0 && opk < len(rb.h.ops) && rb.h.ops[opk].kind == "sethead" && bc.StateRecoverable(head0Root(rb.tree)) {
+			// setHeadBeyondRoot moves the head markers first and recovers the (recoverable)
+			// state in one shot at the end; after a crash in between NewBlockChain repairs any
+			// head but genesis ("Genesis state is missing, wait state sync")
+			v.Key = "reboot-head-state-missing:sethead-to-genesis-interrupted-before-state-recovery"
+		}
+		if v.Oracle == "reboot-head-state-missing" && cv.head == 0 && opk < 0 && rb.p.Knobs.Scheme == rawdb.PathScheme && !rb.p.Knobs.NoAsync {
+			// Genesis.Commit writes the genesis block batch while the asynchronous flush of
+			// the genesis state is still in flight
+			v.Key = "reboot-head-state-missing:genesis-block-written-before-async-state-flush"
+		}
+		return v
 	}
 	head := bc.CurrentBlock()
 	tracef("   reboot cut=%d draw=%d: head #%d header #%d bound %d (%s)", rb.cut, rb.draw, cv.head, cv.hdr, bound, boundWhy)
@@ -475,7 +523,7 @@ func (rb *rebooter) judge(w *world, bound int64, boundWhy string) *simcore.Viola
 		}
 	}
 	// 7: reach the twin's head again
-	tnode, opk := rb.h.target(rb.cut)
+	tnode, _ := rb.h.target(rb.cut)
 	tblock := rb.tree.blockOf(tnode)
 	if !w.finalOK(tnode) {
 		// the image's frozen / finalized blocks are not ancestors of the target (can
@@ -524,11 +572,7 @@ func (rb *rebooter) judge(w *world, bound int64, boundWhy string) *simcore.Viola
 		v.Msg = "after re-import: " + v.Msg
 		return v
 	}
-	if v := w.checkLookups(cv, false); v != nil {
-		v = pre(v)
-		v.Msg = "after re-import: " + v.Msg
-		return v
-	}
+	_ = cv
 	// clean shutdown of the repaired node
 	w.stopChain()
 	return nil
@@ -627,4 +671,13 @@ func trunc(b []byte) []byte {
 		return b[:12]
 	}
 	return b
+}
+
+func head0Root(t *refTree) common.Hash { return t.genesis.Root() }
+
+func (rb *rebooter) headBefore(k int) int {
+	if k > 0 {
+		return rb.h.ops[k-1].headAfter
+	}
+	return -1
 }
